@@ -29,3 +29,9 @@ Fixpoint ok_c20 (thr : N) (fb : N) (k : N) (l : list treq) (obs : list tobs1) : 
         && (o_inflight o =? k) && ok_c20 thr fb k tl obs'
   | _, _ => false
   end.
+
+(** admissions that are still held at the end: the requests whose future was dropped before completion *)
+Definition dropped (obs : list tobs1) : N :=
+  N.of_nat (length (filter (fun o => resp_eqb (o_resp o) TRDropped) obs)).
+Fixpoint last_inflight (k : N) (obs : list tobs1) : N :=
+  match obs with [] => k | o :: tl => last_inflight (o_inflight o) tl end.
